@@ -2,7 +2,7 @@
    U <id> <family> <alg> <seed-hex> <stream-hex> <ctx-placement> <nseg> <len[:placement]>...
    alg = sha1 | sha256 | mur.  One update call per segment, then finalize.
    Output: <id> { u <total_length> <partial[0..total%1024)> <interim words> [<h1> <h2>] }*
-                f <digest words> [<h1> <h2>]  s <L0 spec digest> [<spec h1> <spec h2>] *)
+                f <digest words> [<h1> <h2>]  g <interim words after the tail blocks>  s <L0 spec digest> [<spec h1> <spec h2>] *)
 open Isal
 open Conv
 
@@ -29,20 +29,25 @@ let () = iter_lines (fun line ->
     let b = Buffer.create 4096 in
     Buffer.add_string b id;
     let lens = List.map seg_len segs in
+    (* more than 64 updates: the context is printed after every 16th and the last (as mh_drv.c) *)
+    let nseg = List.length lens in
+    let k = ref (-1) in
+    let dump () = incr k; nseg <= 64 || !k mod 16 = 15 || !k = nseg - 1 in
     let pieces =
       let rest = ref stream in
       List.map (fun k -> let (a, r) = take_drop k !rest [] in rest := r; a) lens in
     (match alg with
      | "sha1" | "sha256" ->
-       let (init, upd, fin, spec) =
-         if alg = "sha1" then (mh1_init, mh1_update, mh1_finalize, mh_sha1)
-         else (mh256_init, mh256_update, mh256_finalize, mh_sha256) in
+       let (init, upd, fin, tail, spec) =
+         if alg = "sha1" then (mh1_init, mh1_update, mh1_finalize, mh1_tail, mh_sha1)
+         else (mh256_init, mh256_update, mh256_finalize, mh256_tail, mh_sha256) in
        let c = ref init in
        List.iter (fun seg ->
          c := upd !c seg;
-         Buffer.add_string b (Printf.sprintf " u %s %s %s" (hex_of_n !c.mc_total)
+         if dump () then Buffer.add_string b (Printf.sprintf " u %s %s %s" (hex_of_n !c.mc_total)
            (prefix !c.mc_total !c.mc_partial) (words_hex !c.mc_state))) pieces;
        Buffer.add_string b (" f " ^ words_hex (fin !c));
+       Buffer.add_string b (" g " ^ words_hex (tail !c));
        Buffer.add_string b (" s " ^ words_hex (spec stream))
      | "mur" ->
        let seed = n_of_hex seed in
@@ -50,12 +55,13 @@ let () = iter_lines (fun line ->
        List.iter (fun seg ->
          c := mhm_update !c seg;
          let (dg, (h1, h2)) = !c.mc_state in
-         Buffer.add_string b (Printf.sprintf " u %s %s %s %s %s" (hex_of_n !c.mc_total)
+         if dump () then Buffer.add_string b (Printf.sprintf " u %s %s %s %s %s" (hex_of_n !c.mc_total)
            (prefix !c.mc_total !c.mc_partial) (words_hex dg)
            (hex_of_n ~digits:16 h1) (hex_of_n ~digits:16 h2))) pieces;
        let (dg, (h1, h2)) = mhm_finalize !c in
        Buffer.add_string b (Printf.sprintf " f %s %s %s" (words_hex dg)
          (hex_of_n ~digits:16 h1) (hex_of_n ~digits:16 h2));
+       Buffer.add_string b (" g " ^ words_hex (mhm_tail !c));
        let (s1, s2) = murmur3_x64_128 seed stream in
        Buffer.add_string b (Printf.sprintf " s %s %s %s" (words_hex (mh_sha1 stream))
          (hex_of_n ~digits:16 s1) (hex_of_n ~digits:16 s2))
